@@ -1,3 +1,3 @@
 Require Import ExtrOcamlBasic.
 Require Import SGV.Kernel.Dag.
-Extraction "c13_model.ml" run_c13 run_c13_oracle.
+Extraction "c13_model.ml" run_c13 run_c13_oracle run_c13_skips.
